@@ -187,7 +187,18 @@ def gen_lifetime_case(r, fns, prof):
             events.append(ev(t0 + d2, x))
         t0 += d2
     events.append(ev(t0 + T - step, x))
-    if f["cache_if"] and not prof["pure"] and r.chance(1, 2):
+    if f["is_result"] and not f["cache_if"] and not prof["pure"] and r.chance(1, 2):
+        # the entry expires and the refreshing call FAILS (nothing is stored); then other keys succeed
+        events.append(ev(t0 + T, x, ok=False))
+        if r.chance(1, 2):
+            events.append(ev(t0 + T, x, ok=False))
+        for y in range(cap):
+            if y != x:
+                events.append(ev(t0 + T, y))
+        for y in range(cap):
+            if y != x and r.chance(2, 3):
+                events.append(ev(t0 + T, y))
+    elif f["cache_if"] and not prof["pure"] and r.chance(1, 2):
         # the entry expires, the refresh is rejected; then other keys are accepted and must be served
         events.append(ev(t0 + T, x, cif=0))
         for y in range(1 + r.below(cap)):
